@@ -87,6 +87,8 @@ type BridgeOpts struct {
 	Tokens         bool // token mappings / legacy migrations / removals
 	Salt           uint64
 	LegacyPool     []common.Address
+	DupPct         int // percentage of bridges that repeat the content (= leaf) of an earlier bridge
+	DupPool        *[]*bridgesync.Bridge
 }
 
 // BridgeLeafOf is the reference leaf hash of a bridge event
@@ -177,6 +179,18 @@ func GenBridgeHistory(g *rand.Rand, o BridgeOpts) []aggsync.Block {
 				switch {
 				case kind < 5 || (!o.Claims && !o.Tokens):
 					br := RandBridge(g, dc)
+					if o.DupPool != nil {
+						if len(*o.DupPool) > 1 && g.Intn(100) < o.DupPct {
+							// same content as one of the last few bridges (e.g. the same user bridging twice)
+							pool := *o.DupPool
+							src := pool[len(pool)-1-g.Intn(min(len(pool), 4))]
+							c := *src
+							c.DepositCount = dc
+							c.Amount = cloneBig(src.Amount)
+							br = &c
+						}
+						*o.DupPool = append(*o.DupPool, br)
+					}
 					br.BlockNum, br.BlockPos = num, pos
 					dc++
 					b.Events = append(b.Events, bridgesync.Event{Bridge: br})
